@@ -23,9 +23,9 @@ CLAIMED = {
 CLAIMED["C05"] = dict(level="fault_enumeration", ref="DESIGN.md §4 C05", technique="deterministic simulation with a recording store; crash (future dropped / panic inside store call k), store error, stop and time-out placement search; restart on the surviving store",
      text="Seeded placement of crashes (agent future dropped at step s or after the n-th frame read by a remote, process killed inside store call k), store errors, mid-stream stop and inactivity time-out over update histories on persistent and transient lanes and stores; invariant: every frame a remote read for a persistent lane had been handed to the store before; after restart on the surviving store every persistent item holds exactly what the store log implies, never something older than a subscriber saw, transient items are at their defaults.",
      note="RecordingStore (public NodePersistence trait) instead of RocksDB; crash points are at poll boundaries and inside store calls, not inside arbitrary instructions")
-CLAIMED["C20"] = dict(level="exploration", ref="DESIGN.md §4 C20", technique="deterministic simulation with NodeReporting enabled; introspection snapshots at every idle point compared with the links implied by the frames the remotes have read",
+CLAIMED["C20"] = dict(level="exploration", ref="DESIGN.md §4 C20", technique="deterministic simulation with NodeReporting enabled; introspection snapshots at every idle point compared with the links implied by the frames the remotes have read; real threads over the reporter's counters under the shuttle scheduler (random + PCT)",
      text="Seeded search over link/unlink/sync churn, remote disconnects, freezes, stop and time-out with introspection reporting enabled; at every idle point each lane's and the agent's reported uplink count must equal the number of links open according to the frames read (bounds when a remote is frozen or disconnected), the aggregate must equal the sum of the lanes, and the sums of all snapshots must account for every event frame read and every command delivered.",
-     note="as C01; lane failure via agent-c04f; the Links registry + UplinkReporter are additionally driven as a component (part links: sequential op sequences against a reference pair set); counting from several OS threads at once is not explored")
+     note="as C01; lane failure via agent-c04f; the Links registry + UplinkReporter are additionally driven as a component (part links: sequential op sequences against a reference pair set); the counters themselves are additionally driven by real threads under the shuttle scheduler (engine report-shuttle: counting threads against snapshotting threads, conservation of counts)")
 CLAIMED["C06"] = dict(level="exploration", ref="DESIGN.md §4 C06", technique="deterministic simulation of the real agent model + runtime running generated handler programs (sent as commands) under seeded schedules and timer delays; recorded effect trace compared with a reference interpreter of the documented handler semantics",
      text="Seeded generated acyclic handler programs (trees of set/update/remove/clear/get/effect/and_then (also with a multi-step first part)/followed_by/sequentially/suspend/run_after/fail/stop over 3 value items and 2 map lanes whose derived lifecycle handlers themselves run generated programs) are sent as commands (plus commands sent straight to the value and map lanes) to a real derived agent running on the real agent runtime under the seeded executor with drawn channel sizes, budgets and suspension delays; the trace recorded through effect closures must equal, entry by entry, what a reference interpreter of docs/event_handler.md yields (depth-first, on_event then on_set with the true previous value, on_update/on_remove/on_clear with the true previous entry and map, exactly one trigger per change, on_start first, on_stop last, nothing of a failed handler or of the handlers it interrupted after the failure).",
      note="the order of top-level triggers is taken from the trace (schedule dependent); where the documents are silent the reference follows the code (listed in the evidence assumptions); cyclic programs are not generated")
@@ -79,6 +79,7 @@ manifest = {
  },
  "engines": [
    {"name": "vote-shuttle", "path": "shuttle/", "serves_properties": ["C17"], "kind_free_text": "shuttle 0.9.3 controlled scheduler (seeded RandomScheduler and PctScheduler, replayable schedule files) over the real timeout_coord source compiled with the guarded atomics hook"},
+   {"name": "report-shuttle", "path": "shuttle/", "serves_properties": ["C20"], "kind_free_text": "shuttle 0.9.3 controlled scheduler (seeded RandomScheduler and PctScheduler, replayable schedule files) over the real agent::reporting source compiled with the guarded atomics hook: counting threads against snapshotting threads, conservation of counts"},
    {"name": "simctl", "path": "sim/", "serves_properties": sorted(CLAIMED.keys()), "kind_free_text": "hand-written deterministic simulator: seeded executor over the product's top-level futures inside a paused, seeded current-thread tokio runtime; scripted peers over the product's byte channels; fault plan; history oracles; replay + minimisation"},
  ],
  "checks": [],
